@@ -4,6 +4,7 @@
 
 mod analysis;
 mod c02;
+mod c03;
 mod driver;
 mod respparse;
 mod scenario;
@@ -49,6 +50,7 @@ impl explore::Scenario for Job {
         let a = Analysis::new(&self.sc, &ex);
         let mut violations = match self.prop.as_str() {
             "C02" => c02::check(&self.sc, &ex, &a),
+            "C03" => c03::check(&self.sc, &ex, &a),
             _ => vec![],
         };
         if ex.horizon_hit {
@@ -56,6 +58,7 @@ impl explore::Scenario for Job {
         }
         let nontrivial = match self.prop.as_str() {
             "C02" => c02::nontrivial(&ex, &a),
+            "C03" => c03::nontrivial(&ex, &a),
             _ => false,
         };
         let sample = if ch.prefix_len() == 0 {
@@ -116,6 +119,13 @@ fn main() {
             (s, b, "exploration",
              "scenario = config x pipelined request mix x handler programs; every execution with <= d non-default environment answers (read cut/Pending, partial write, flush Pending, event order) is run on the real h1::Dispatcher; classes are distinct canonical observations (masked response bytes + dispatch/body log); non-trivial = a pipelined request was dispatched before the previous response was fully written, or the response was written in more than one socket write",
              vec!["Date header values are masked", "tokio LocalSet/timer internals are executed, not explored", "reference client parser implements RFC 7230 section 3.3.3"])
+        }
+        "C03" => {
+            let s = c03::scenarios(&tier);
+            let b = s.iter().map(|x| c03::bound(x, &tier)).collect();
+            (s, b, "fault_enumeration",
+             "scenario = config (keep-alive, linger, half-close) x pipelined requests whose bodies look like requests x handler payload plan (read none/first/all, drop early/late/never, respond early/late) x arrival pattern of the remaining body bytes (with head / later / split / never); every execution with <= d non-default environment answers is run on the real h1::Dispatcher; non-trivial = a body-bearing request was answered or a response announced close",
+             vec!["Date header values are masked", "a response 'announces close' when it carries an explicit Connection: close header or is a dispatcher-generated 4xx", "tokio LocalSet/timer internals are executed, not explored"])
         }
         other => {
             eprintln!("MACHINERY: h1x does not serve {other}");
